@@ -26,6 +26,9 @@ Proof.
   intros A a b n. rewrite skipn_app. rewrite skipn_all2 by lia. cbn [app]. f_equal. lia.
 Qed.
 
+Lemma Some_inj : forall (A : Type) (a b : A), Some a = Some b -> a = b.
+Proof. intros A a b H. congruence. Qed.
+
 Lemma firstn_add_skipn : forall (A : Type) (a b : nat) (l : list A),
   firstn (a + b) l = firstn a l ++ firstn b (skipn a l).
 Proof.
@@ -695,11 +698,12 @@ Section Transform.
       { apply (IH (skipn 24 pred)); [exact Hp | rewrite skipn_length; lia | exact E']. }
       cbn [map concat]. rewrite app_length, (clock_hours_length k Hk), <- IH'.
       destruct k as [|h|h]; cbn [rows_expected kind_ok] in *.
-      + inversion E. Show. rewrite app_length, Hs. reflexivity.
-      + apply Nat.ltb_lt in Hk. inversion E. rewrite app_length, delete_at_length by lia. lia.
+      + apply Some_inj in E. rewrite <- E. rewrite app_length, Hs. reflexivity.
+      + apply Nat.ltb_lt in Hk. apply Some_inj in E. rewrite <- E. rewrite app_length, delete_at_length by lia. lia.
       + apply Nat.ltb_lt in Hk.
         destruct (nth_error pred h); [|discriminate]. destruct (nth_error pred (S h)); [|discriminate].
-        inversion E. rewrite app_length. cbn [length]. rewrite app_length, firstn_length, skipn_length. lia.
+        apply Some_inj in E. rewrite <- E.
+        rewrite app_length. cbn [length]. rewrite app_length, firstn_length, skipn_length. lia.
   Qed.
 End Transform.
 
@@ -738,11 +742,11 @@ Proof.
   - intros k a b Ha Hb. rewrite nth_error_map in Ha, Hb.
     destruct (nth_error (seq 0 n) k) as [x|] eqn:Ex; [|discriminate].
     destruct (nth_error (seq 0 n) (S k)) as [y|] eqn:Ey; [|discriminate].
-    cbn in Ha, Hb. inversion Ha; inversion Hb; subst.
+    cbn [option_map] in Ha, Hb. apply Some_inj in Ha. apply Some_inj in Hb. subst a b.
     assert (Hk : k < n) by (rewrite <- (seq_length n 0); apply nth_error_Some; congruence).
     assert (Hk' : S k < n) by (rewrite <- (seq_length n 0); apply nth_error_Some; congruence).
-    pose proof (seq_nth n 0 Hk 0) as N1. pose proof (seq_nth n 0 Hk' 0) as N2.
-    apply (nth_error_nth _ _ 0) in Ex. apply (nth_error_nth _ _ 0) in Ey. lia.
+    pose proof (@seq_nth n 0 k 0 Hk) as N1. pose proof (@seq_nth n 0 (S k) 0 Hk') as N2.
+    apply nth_error_nth with (d := 0) in Ex. apply nth_error_nth with (d := 0) in Ey. lia.
   - unfold n. cbn [seq map nth_error]. f_equal. lia.
   - intros t. rewrite in_map_iff. split.
     + intros (k & Hk & Hin). subst t. apply in_seq in Hin. split.
@@ -753,4 +757,200 @@ Proof.
       assert (0 <= (t - s) / 60)%Z by (apply Z.div_pos; lia).
       split; [rewrite Z2Nat.id by lia; lia|]. apply in_seq. split; [lia|]. cbn [plus]. apply Hn.
       rewrite Z2Nat.id by lia. lia.
+Qed.
+
+(* ================================================================== HourlyModel._predict *)
+Section HourlyPredict.
+  Context {V : Type}.
+  Variable mean2 : V -> V -> V.
+  Variable feat : hour_stamp -> V.
+  Variable regress : list (list V) -> list V.
+  (* oracle contract of the regression (self._model.predict + inverse scaling + flatten): one value per slot *)
+  Hypothesis regress_length : forall agg, length (regress agg) = 24 * length agg.
+
+  Lemma lookup_nth : forall (idx : list Z) (y : list V), NoDup idx -> length y = length idx ->
+    forall n t, nth_error idx n = Some t -> lookup (combine idx y) t = nth_error y n.
+  Proof.
+    induction idx as [|a idx IH]; intros y Hnd Hlen n t Hn; [destruct n; discriminate|].
+    destruct y as [|b y]; [discriminate|]. inversion Hnd as [|? ? Ha Hnd']; subst.
+    unfold lookup. cbn [combine find fst].
+    destruct n as [|n]; cbn [nth_error] in *.
+    - inversion Hn; subst. rewrite Z.eqb_refl. reflexivity.
+    - assert (Hin : In t idx) by (eapply nth_error_In; exact Hn).
+      replace (a =? t)%Z with false by (symmetry; apply Z.eqb_neq; intros E; subst; contradiction).
+      apply (IH y Hnd' ltac:(cbn [length] in Hlen; lia) n t Hn).
+  Qed.
+
+  Lemma map_lookup : forall (idx : list Z) (y : list V) (rows : list (Z * V)), length y = length idx ->
+    (forall n t, nth_error idx n = Some t -> lookup rows t = nth_error y n) ->
+    map (fun t => (t, lookup rows t)) idx = combine idx (map Some y).
+  Proof.
+    induction idx as [|a idx IH]; intros [|b y] rows Hlen L; try discriminate; [reflexivity|].
+    cbn [map combine]. f_equal.
+    - f_equal. apply (L 0 a). reflexivity.
+    - apply IH; [cbn [length] in Hlen; lia|]. intros n t Hn. apply (L (S n) t). exact Hn.
+  Qed.
+
+  Lemma reindex_same : forall (idx : list Z) (y : list V), StronglySorted Z.lt idx -> length y = length idx ->
+    reindex (combine idx y) idx = Ok (combine idx (map Some y)).
+  Proof.
+    intros idx y Hs Hlen. unfold reindex.
+    assert (Hfst : map fst (combine idx y) = idx).
+    { clear Hs. revert y Hlen. induction idx as [|a idx IH]; intros [|b y] Hlen; try discriminate; [reflexivity|].
+      cbn [combine map fst]. f_equal. apply IH. cbn [length] in Hlen. lia. }
+    rewrite Hfst, (has_dup_sorted idx Hs). f_equal.
+    apply map_lookup; [exact Hlen|]. apply lookup_nth; [apply NoDup_sorted; exact Hs | exact Hlen].
+  Qed.
+
+  Lemma rel3_length : forall (A B C : Type) (R : A -> B -> C -> Prop) la lb lc, rel3 R la lb lc ->
+    length lb = length la /\ length lc = length la.
+  Proof. intros A B C R la lb lc H. induction H; cbn [length]; [split; reflexivity | lia]. Qed.
+
+  Lemma index_length : forall days pat, Forall2 realises days pat -> length (index_of days) = total_rows pat.
+  Proof.
+    intros days pat H. unfold index_of, rows_of, total_rows. rewrite map_length.
+    induction H as [|d k days pat Hd _ IH]; [reflexivity|].
+    cbn [map concat]. rewrite !app_length, IH. f_equal.
+    destruct Hd as (Hh & _ & _). rewrite <- Hh. unfold hours. rewrite map_length. reflexivity.
+  Qed.
+
+  Lemma hourly_predict_valid : forall days pat, Forall2 realises days pat -> pattern_ok pat = true ->
+    StronglySorted Z.lt (index_of days) ->
+    exists agg y, hourly_predict mean2 feat regress days = Ok (combine (index_of days) (map Some y))
+                  /\ length y = length (index_of days)
+                  /\ rel3 day_fix pat (map (fun d => map feat (d_rows d)) days) agg
+                  /\ by_day mean2 pat (regress agg) = Some y.
+  Proof.
+    intros days pat Hr Hok Hs.
+    assert (Hk := pattern_ok_kind_ok _ Hok).
+    assert (Hshape : Forall2 (fun k f => length f = rows_expected k) pat (map (fun d => map feat (d_rows d)) days)).
+    { clear Hs Hok. induction Hr as [|d k days pat Hd _ IH]; [constructor|].
+      cbn [forallb] in Hk. apply andb_true_iff in Hk. destruct Hk as [Hk1 Hk2].
+      cbn [map]. constructor; [|apply IH; exact Hk2].
+      rewrite map_length, <- (clock_hours_length k Hk1). destruct Hd as (Hh & _ & _). rewrite <- Hh.
+      unfold hours. rewrite map_length. reflexivity. }
+    destruct (correct_dst_24_l mean2 pat _ Hshape Hok) as (agg & Ef & H24 & R).
+    destruct (rel3_length _ _ _ _ _ _ _ R) as [_ Hla].
+    destruct (transform_dst_pattern mean2 pat (regress agg) Hok ltac:(rewrite regress_length, Hla; reflexivity))
+      as (y & Et & Eb & _).
+    assert (Hy : length y = length (index_of days)).
+    { rewrite (index_length days pat Hr). apply (by_day_length mean2 pat (regress agg)); try assumption.
+      rewrite regress_length, Hla. reflexivity. }
+    exists agg, y. split; [|split; [exact Hy | split; assumption]].
+    unfold hourly_predict. rewrite (get_dst_indices_valid_l days pat Hr Hk). cbn [bind].
+    rewrite Ef. cbn [bind]. rewrite H24. cbn [negb]. rewrite Et. cbn [bind].
+    rewrite Hy, Nat.eqb_refl. cbn [negb]. apply reindex_same; assumption.
+  Qed.
+End HourlyPredict.
+
+(* ================================================================== DailyModel._predict / BillingModel.predict *)
+Section SortFacts.
+  Context {B : Type}.
+  Variable key : B -> Z.
+
+  Lemma insert_by_perm : forall x l, Permutation (insert_by key x l) (x :: l).
+  Proof.
+    intros x. induction l as [|y l IH]; cbn [insert_by]; [apply Permutation_refl|].
+    destruct (key x <=? key y)%Z; [apply Permutation_refl|].
+    eapply Permutation_trans; [apply perm_skip; exact IH | apply perm_swap].
+  Qed.
+
+  Lemma sort_by_perm : forall l, Permutation (sort_by key l) l.
+  Proof.
+    induction l as [|x l IH]; [apply Permutation_refl|].
+    unfold sort_by. cbn [fold_right]. fold (sort_by key l).
+    eapply Permutation_trans; [apply insert_by_perm | apply perm_skip; exact IH].
+  Qed.
+
+  Definition key_le (a b : B) : Prop := (key a <= key b)%Z.
+
+  Lemma insert_by_sorted : forall x l, LocallySorted key_le l -> LocallySorted key_le (insert_by key x l).
+  Proof.
+    intros x l H. induction H as [|y|y z l H IH Hyz]; cbn [insert_by].
+    - constructor.
+    - destruct (key x <=? key y)%Z eqn:E.
+      + constructor; [constructor | unfold key_le; lia].
+      + constructor; [constructor | unfold key_le; lia].
+    - destruct (key x <=? key y)%Z eqn:E.
+      + constructor; [constructor; assumption | unfold key_le; lia].
+      + cbn [insert_by] in IH. destruct (key x <=? key z)%Z eqn:E2.
+        * constructor; [exact IH | unfold key_le; lia].
+        * constructor; [exact IH | exact Hyz].
+  Qed.
+
+  Lemma sort_by_sorted : forall l, LocallySorted key_le (sort_by key l).
+  Proof.
+    induction l as [|x l IH]; [constructor|].
+    unfold sort_by. cbn [fold_right]. fold (sort_by key l). apply insert_by_sorted. exact IH.
+  Qed.
+End SortFacts.
+
+Lemma filter_split_perm : forall (B : Type) (p : B -> bool) l,
+  Permutation (filter p l ++ filter (fun x => negb (p x)) l) l.
+Proof.
+  intros B p. induction l as [|x l IH]; cbn [filter]; [apply Permutation_refl|].
+  destruct (p x); cbn [negb app].
+  - apply perm_skip. exact IH.
+  - eapply Permutation_trans; [apply Permutation_sym; apply Permutation_middle|]. apply perm_skip. exact IH.
+Qed.
+
+Lemma filter_map_comm : forall (A B : Type) (g : A -> B) (p : B -> bool) l,
+  filter p (map g l) = map g (filter (fun x => p (g x)) l).
+Proof.
+  intros A B g p. induction l as [|x l IH]; [reflexivity|]. cbn [map filter].
+  destruct (p (g x)); cbn [map]; rewrite IH; reflexivity.
+Qed.
+
+Lemma filter_flat_map : forall (A B : Type) (f : A -> list B) (p : B -> bool) l,
+  filter p (flat_map f l) = flat_map (fun x => filter p (f x)) l.
+Proof.
+  intros A B f p. induction l as [|x l IH]; [reflexivity|]. cbn [flat_map]. rewrite filter_app, IH. reflexivity.
+Qed.
+
+Lemma flat_map_single : forall (A B : Type) (f : A -> list B) (g : A -> B) l,
+  (forall x, In x l -> f x = [g x]) -> flat_map f l = map g l.
+Proof.
+  intros A B f g. induction l as [|x l IH]; intros H; [reflexivity|]. cbn [flat_map map].
+  rewrite (H x (or_introl eq_refl)), IH; [reflexivity|]. intros y Hy. apply H. right. exact Hy.
+Qed.
+
+Lemma filter_comm : forall (A : Type) (p q : A -> bool) l, filter p (filter q l) = filter q (filter p l).
+Proof.
+  intros A p q. induction l as [|x l IH]; [reflexivity|]. cbn [filter].
+  destruct (q x) eqn:Eq, (p x) eqn:Ep; cbn [filter]; rewrite ?Eq, ?Ep, IH; reflexivity.
+Qed.
+
+Lemma NoDup_map_filter : forall (A : Type) (f : A -> Z) (p : A -> bool) l,
+  NoDup (map f l) -> NoDup (map f (filter p l)).
+Proof.
+  intros A f p. induction l as [|x l IH]; intros H; [constructor|]. cbn [map] in H. inversion H as [|? ? Hx Hl]; subst.
+  cbn [filter]. destruct (p x); [|apply IH; exact Hl]. cbn [map]. constructor; [|apply IH; exact Hl].
+  intros Hin. apply Hx. apply in_map_iff in Hin. destruct Hin as (y & Hy & Hyin). apply filter_In in Hyin.
+  apply in_map_iff. exists y. tauto.
+Qed.
+
+Lemma NoDup_map_inj : forall (A : Type) (f : A -> Z) l a b,
+  NoDup (map f l) -> In a l -> In b l -> f a = f b -> a = b.
+Proof.
+  intros A f. induction l as [|x l IH]; intros a b H Ha Hb E; [destruct Ha|].
+  cbn [map] in H. inversion H as [|? ? Hx Hl]; subst.
+  destruct Ha as [Ha|Ha], Hb as [Hb|Hb]; subst.
+  - reflexivity.
+  - exfalso. apply Hx. rewrite E. apply in_map. exact Hb.
+  - exfalso. apply Hx. rewrite <- E. apply in_map. exact Ha.
+  - apply IH; assumption.
+Qed.
+
+Lemma filter_label_unique : forall (A : Type) (f : A -> Z) l r, NoDup (map f l) -> In r l ->
+  filter (fun x => Z.eqb (f x) (f r)) l = [r].
+Proof.
+  intros A f. induction l as [|x l IH]; intros r H Hr; [destruct Hr|].
+  cbn [map] in H. inversion H as [|? ? Hx Hl]; subst. cbn [filter]. destruct Hr as [Hr|Hr].
+  - subst x. rewrite Z.eqb_refl. f_equal.
+    assert (E : forall y, In y l -> Z.eqb (f y) (f r) = false).
+    { intros y Hy. apply Z.eqb_neq. intros E. apply Hx. rewrite <- E. apply in_map. exact Hy. }
+    clear - E. induction l as [|y l IHl]; [reflexivity|]. cbn [filter]. rewrite (E y (or_introl eq_refl)).
+    apply IHl. intros z Hz. apply E. right. exact Hz.
+  - replace (Z.eqb (f x) (f r)) with false; [apply IH; assumption|].
+    symmetry. apply Z.eqb_neq. intros E. apply Hx. rewrite E. apply in_map. exact Hr.
 Qed.
